@@ -259,6 +259,60 @@ Proof.
     + destruct (tc_directory c); [|discriminate]. intro Hx. apply (HJ true Hx).
 Qed.
 
+(* ---------- whether a creation succeeds, and under which name, does not depend on the bytes ---------- *)
+Lemma open_create_indep f p t x y :
+  match open_create f p t x, open_create f p t y with
+  | Some _, Some _ | None, None => True
+  | _, _ => False
+  end.
+Proof.
+  unfold open_create. destruct p as [|c0 p0]; [exact I|].
+  destruct (stat f (removelast (c0 :: p0))) as [[|]| |]; try exact I.
+  destruct (has_nul (last (c0 :: p0) []) || (name_max <? name_len (last (c0 :: p0) []))); [exact I|].
+  destruct (lookup f (c0 :: p0)) as [[old|]|]; exact I.
+Qed.
+
+Lemma do_create_file_indep p t x y st : fst (do_create_file p t x st) = fst (do_create_file p t y st).
+Proof.
+  unfold do_create_file. pose proof (open_create_indep (st_fs st) p t x y) as Hi.
+  destruct (open_create (st_fs st) p t x) as [[? ?]|]; destruct (open_create (st_fs st) p t y) as [[? ?]|];
+    try contradiction; reflexivity.
+Qed.
+
+Lemma create_leaf_indep s full t x y ln st : fst (create_leaf s full t x ln st) = fst (create_leaf s full t y ln st).
+Proof.
+  unfold create_leaf. destruct (s_archive s); [reflexivity|]. destruct (s_isdir s); [reflexivity|].
+  pose proof (do_create_file_indep full t x y st) as Hi.
+  destruct (do_create_file full t x st) as [[|] ?]; destruct (do_create_file full t y st) as [[|] ?];
+    cbn [fst] in Hi; try discriminate; reflexivity.
+Qed.
+
+Lemma cdof_indep cfg d s r0 rest t x y st :
+  fst (create_dir_or_file cfg d s r0 rest t x st) = fst (create_dir_or_file cfg d s r0 rest t y st).
+Proof.
+  unfold create_dir_or_file.
+  destruct (if overwrite cfg then Some (r0, st) else _) as [[ln st1]|]; [|reflexivity].
+  destruct rest as [|c rest]; [apply create_leaf_indep|].
+  destruct (do_create_directory (join d (ln :: removelast (c :: rest))) st1) as [[|] st2]; [|reflexivity].
+  apply create_leaf_indep.
+Qed.
+
+Lemma tr_create_indep c d p x y st : fst (tr_create c d p x st) = fst (tr_create c d p y st).
+Proof.
+  unfold tr_create. destruct p as [nm|s sz].
+  - destruct (tr_json c); [reflexivity|]. unfold create_file.
+    destruct (chk_create_file code_checks && negb (valid_name nm)); [reflexivity|].
+    destruct (if overwrite (tr_names_cfg c) then Some nm else _) as [ln|]; [|reflexivity].
+    pose proof (do_create_file_indep (join d [ln]) true x y st) as Hi.
+    destruct (do_create_file (join d [ln]) true x st) as [[|] ?]; destruct (do_create_file (join d [ln]) true y st) as [[|] ?];
+      cbn [fst] in Hi; try discriminate; reflexivity.
+  - assert (HJ : forall t, fst (recv_json code_checks (tr_names_cfg c) d (Some s) t x st) =
+                           fst (recv_json code_checks (tr_names_cfg c) d (Some s) t y st)).
+    { intro t. unfold recv_json. destruct (s_rel s) as [|r0 rest]; [reflexivity|].
+      destruct (chk_unmarshal code_checks && negb (forallb valid_name (r0 :: rest))); [reflexivity|]. apply cdof_indep. }
+    destruct (tr_json_names c); [apply HJ|]. destruct (tc_directory c); [apply HJ | reflexivity].
+Qed.
+
 (* ---------- the specification run leaves the source tree at the destination ---------- *)
 Section Tree.
 Variable c : tr_cfg.
